@@ -23,7 +23,7 @@ def stages(tier):
 
 TRUSTED = [
     "models Model/Range.v, Model/ByteSize.v, Model/Phc.v, Model/ConfigTxn.v with an explicit Panic outcome for every Go operation that can panic; tied to the code by the unit stages (real parsers under recover(), compared case by case) of C07, C17, C20 and C18",
-    "raw-socket stage (harness/cmd/fuzz16, decided by the harness): request-line / Host / Range / If-Range / Cache-Control / conditional / Connection mutations over plain proxying and inside CONNECT tunnels, CONNECT target mutations, hostile origin status + header sets on fresh, stored and stale entries, both backends, both retry settings; a response must arrive within 8 s, parse as HTTP and carry a body consistent with its framing",
+    "raw-socket stage (harness/cmd/fuzz16, decided by the harness): request-line / Host / Range / If-Range / Cache-Control / conditional / Connection mutations over plain proxying and inside CONNECT tunnels, CONNECT target mutations, hostile origin status + header sets on fresh, stored and stale entries, both backends, both retry settings; a response must arrive within 8 s, parse as HTTP and carry a body consistent with its framing; origin status codes 000..1000 and malformed ones",
     "parsers without panicking operations (Cache-Control/Expires, cache key, CONNECT target split) are total Gallina functions whose agreement with the code under recover() is checked by C03/C04, C02, C11",
 ]
 ASSUMPTIONS = [
